@@ -305,13 +305,10 @@ def group_gathered_subsamples(
     {'myname': [{'param': 2.0, 'Name': 'myname'}, {'param': 2.0, 'Name': 'myname'}]}
 
     """
-    grouped = groupby(
-        subsamples,
-        key=lambda item: groupby_keyfunc(item=item, groupby_column=groupby_column),
-    )
-    # for k, g in grouped:
-    #     print(k, list(g))
-
-    grouped = {key: list(vals) for key, vals in grouped if isinstance(key, str)}
+    grouped: Dict[str, List[Dict[str, Union[general.Number, str]]]] = {}
+    for item in subsamples:
+        key = groupby_keyfunc(item=item, groupby_column=groupby_column)
+        if isinstance(key, str):
+            grouped.setdefault(key, []).append(item)
 
     return grouped
